@@ -362,7 +362,7 @@ def gen_life_program(rng):
     """-> (text of a func with top-level snax.alloc ops, views, casts, nested uses), number of memories"""
     nm = rng.choice([1, 1, 2])
     nb = rng.choice([1, 2, 2, 3, 3, 4, 5])
-    lines = ["%c4 = arith.constant 4 : index", "%c0 = arith.constant 0 : index", "%c1 = arith.constant 1 : index",
+    lines = ["%c4 = arith.constant 4 : index", "%c4b = arith.constant 4 : index", "%c0 = arith.constant 0 : index", "%c1 = arith.constant 1 : index",
              "%cond = arith.constant true"]
     live = []     # (value name, type) of memref-typed values visible at top level
     cnt = [0]
@@ -400,7 +400,7 @@ def gen_life_program(rng):
             al = rng.choice([1, 1, 4, 8, 16, 64])
             m = rng.randrange(nm)
             lines.append(f"%sz{k} = arith.constant {size} : index")
-            lines.append(f'%a{k} = "snax.alloc"(%sz{k}, %c4, %c4) <{{memory_space = "M{m}", alignment = {al} : i32}}> : (index, index, index) -> {struct_ty(2)}')
+            lines.append(f'%a{k} = "snax.alloc"(%sz{k}, %c4, %c4b) <{{memory_space = "M{m}", alignment = {al} : i32}}> : (index, index, index) -> {struct_ty(2)}')
             lines.append(f'%m{k} = "builtin.unrealized_conversion_cast"(%a{k}) : ({struct_ty(2)}) -> {MT}')
             live.append((f"%m{k}", MT))
             if rng.random() < 0.15:   # a second cast of the same descriptor
@@ -485,23 +485,28 @@ def run_minimalloc(text, nm, mode):
     from snaxc.transforms.snax_allocate import SnaxAllocatePass
     from snaxc.util.snax_memory import SnaxMemory
     c = xctx()
-    mems = [(0x1000 * (i + 1), 65536) for i in range(nm)]
+    mems = [(0x10000 * (3 * i + 1), 65536) for i in range(nm)]   # disjoint windows
     for i, (start, cap) in enumerate(mems):
         c.register_memory(SnaxMemory(StringAttr(f"M{i}"), cap, start))
     mod = parse(text)
     f = [op for op in mod.walk() if isinstance(op, func.FuncOp)][0]
     prog, alloc_ops = convert_func(f)
     idmap = {str(hash(op)): (k, int(op.memory_space.data[1:])) for k, op in enumerate(alloc_ops)}
+    shape_vals = [list(op.shapes) for op in alloc_ops]
     del minimalloc_stub.PROBLEMS[:]
     SnaxAllocatePass(mode=mode).apply(c, mod)
     mod.verify()
-    problems = {}
-    for pr in minimalloc_stub.PROBLEMS:
+    problems, offsets = {}, {}
+    for pr in list(minimalloc_stub.PROBLEMS):
         ms = {idmap[b.id][1] for b in pr.buffers}
         assert len(ms) == 1
-        problems[ms.pop()] = [(b.start_time, b.end_time, b.size, b.alignment) for b in pr.buffers]
+        m_ = ms.pop()
+        problems[m_] = [(b.start_time, b.end_time, b.size, b.alignment) for b in pr.buffers]
+        offsets[m_] = minimalloc_stub.Problem(pr.buffers, pr.capacity).solve()
+    del minimalloc_stub.PROBLEMS[:]
+    descrs = extract_descriptors(mod)
     addrs = [op.input.owner.value.value.data for op in mod.walk() if isinstance(op, llvm.IntToPtrOp)]
-    return {"prog": prog, "problems": problems, "addrs": addrs, "mems": mems, "module": mod,
+    return {"prog": prog, "problems": problems, "offsets": offsets, "descrs": descrs, "shape_vals": shape_vals, "addrs": addrs, "mems": mems, "module": mod,
             "alloc_meta": [(int(op_mem), sz) for (op_mem, sz) in [(o["mem"], o["size"]) for o in prog if o["kind"] == "KAlloc"]]}
 
 
@@ -560,11 +565,20 @@ def check_life(run):
                     if a1 < a2 + allocs[j]["size"] and a2 < a1 + allocs[i]["size"]:
                         fails.append(("live_buffers_overlap", {"allocs": [i, j], "addresses": [a1, a2],
                                                                "sizes": [allocs[i]["size"], allocs[j]["size"]], "live": [spans[i], spans[j]]}, None))
+        pos = {}
         for i, a in enumerate(allocs):
             start, cap = run["mems"][a["mem"]]
             ad = run["addrs"][i]
+            kth = pos.get(a["mem"], 0)
+            pos[a["mem"]] = kth + 1
+            offs = run["offsets"].get(a["mem"])
+            if offs is not None and kth < len(offs) and ad != offs[kth] + start:
+                fails.append(("address_not_offset_plus_start", {"alloc": i, "address": ad, "solver_offset": offs[kth], "memory_start": start}, None))
             if ad < start or ad + a["size"] > start + cap or (a["align"] > 0 and (ad - start) % a["align"] != 0):
                 fails.append(("minimalloc_range", {"alloc": i, "address": ad}, None))
+        for i, d in enumerate(run["descrs"][:len(allocs)]):
+            if d["ptr"] != ("const", run["addrs"][i]) or d["aligned"] != d["ptr"] or d["offset"] != 0 or d["sizes"] != run["shape_vals"][i]:
+                fails.append(("descriptor_fields", {"alloc": i, "ptr": d["ptr"], "aligned": d["aligned"], "offset": d["offset"]}, None))
     else:
         fails.append(("address_count", {"addrs": run["addrs"]}, None))
     # deallocs: no use of the buffer or a view of it after its dealloc
@@ -592,7 +606,158 @@ def check_life(run):
     return fails
 
 
+# ------------------------------------------------------------------ memref descriptors (create_memref_struct), dynamic mode
+def extract_descriptors(mod):
+    """every llvm.insertvalue chain that starts at llvm.mlir.undef, in walk order ->
+    [dict(ptr, aligned, offset, sizes [SSAValue of the shape operand], call)] (structural, trusted)"""
+    from xdsl.dialects import arith, func, llvm
+    chains, by_res = [], {}
+    for op in mod.walk():
+        if isinstance(op, llvm.InsertValueOp):
+            cont = op.container
+            ch = dict(by_res.pop(cont)) if cont in by_res else ({} if isinstance(cont.owner, llvm.UndefOp) else None)
+            if ch is None:
+                continue
+            ch[tuple(op.position.get_values())] = op.value
+            by_res[op.res] = ch
+    for res, ch in by_res.items():
+        chains.append((res, ch))
+
+    def src(v):
+        o = v.owner
+        if isinstance(o, llvm.IntToPtrOp):
+            return ("const", o.input.owner.value.value.data), None
+        if isinstance(o, llvm.ExtractValueOp) and isinstance(o.container.owner, llvm.LoadOp):
+            call = o.container.owner.ptr.owner
+            if isinstance(call, func.CallOp) and call.callee.root_reference.data == "snax_alloc_l1":
+                return ("field", tuple(o.position.get_values())[0]), call
+        return ("other", str(v)), None
+    out = []
+    for res, ch in chains:
+        p, call = src(ch[(0,)])
+        a, call2 = src(ch[(1,)])
+        off = ch[(2,)].owner.value.value.data if isinstance(ch[(2,)].owner, arith.ConstantOp) else None
+        sizes = []
+        i = 0
+        while (3, i) in ch:
+            v = ch[(3, i)]
+            if v.owner.name == "builtin.unrealized_conversion_cast":
+                v = v.owner.operands[0]
+            sizes.append(v)
+            i += 1
+        out.append({"ptr": p, "aligned": a, "offset": off, "sizes": sizes, "call": call or call2, "result": res})
+    return out
+
+
+def coq_psrc(p):
+    return f"(PConst {zlit(p[1])})" if p[0] == "const" else (f"(PField {p[1]}%nat)" if p[0] == "field" else "(PField 99%nat)")
+
+
+def coq_descr(d, shape_vals):
+    from vlib import optz
+    idx = [shape_vals.index(v) if v in shape_vals else 99 for v in d["sizes"]]
+    # with repeated shape operands `index` picks the first: normalise the expected list the same way
+    call_al = None
+    if d["call"] is not None:
+        call_al = d["call"].arguments[1].owner.value.value.data
+    return (f"(mkDescr {coq_psrc(d['ptr'])} {coq_psrc(d['aligned'])} {zlit(d['offset'] if d['offset'] is not None else -1)} "
+            f"{coqlist(f'{i}%nat' for i in idx)} {optz(call_al)})")
+
+
+def gen_dynamic(rng):
+    """-> list of allocs: (rank, size const|None (dynamic), alignment, memory 'L1'|'M0')"""
+    n = rng.choice([1, 2, 3, 4])
+    out = []
+    for _ in range(n):
+        out.append({"rank": rng.choice([1, 2, 3]), "size": rng.choice([None, None, 16, 64, 100]),
+                    "al": rng.choice([1, 4, 8, 16, 64, 256]), "mem": "L1" if rng.random() < 0.85 else "M0"})
+    return out
+
+
+def dynamic_text(allocs):
+    lines = ["builtin.module {", "func.func public @f() {"]
+    for k, a in enumerate(allocs):
+        if a["size"] is None:
+            lines.append(f'%s{k} = "test.op"() : () -> index')
+        else:
+            lines.append(f"%s{k} = arith.constant {a['size']} : index")
+        shp = []
+        for j in range(a["rank"]):
+            lines.append(f'%d{k}_{j} = "test.op"() : () -> index')
+            shp.append(f"%d{k}_{j}")
+        lines.append(f'%a{k} = "snax.alloc"(%s{k}, {", ".join(shp)}) <{{memory_space = "{a["mem"]}", alignment = {a["al"]} : i32}}> : '
+                     f'({", ".join(["index"] * (a["rank"] + 1))}) -> {struct_ty(a["rank"])}')
+        mt = "memref<" + "x".join(["?"] * a["rank"]) + "xi32>"
+        lines.append(f'%m{k} = "builtin.unrealized_conversion_cast"(%a{k}) : ({struct_ty(a["rank"])}) -> {mt}')
+        lines.append(f'"test.op"(%m{k}) : ({mt}) -> ()')
+    lines += ["func.return", "}", "}"]
+    return "\n".join(lines)
+
+
+def run_dynamic(allocs, mode):
+    """-> list per alloc: None (left as snax.alloc) | dict(descr, shape_vals, size_val, call)"""
+    from xdsl.dialects.builtin import StringAttr
+    from snaxc.dialects import snax
+    from snaxc.transforms.snax_allocate import SnaxAllocatePass
+    from snaxc.util.snax_memory import SnaxMemory
+    c = xctx()
+    c.register_memory(SnaxMemory(StringAttr("M0"), 65536, 0x20000))
+    mod = parse(dynamic_text(allocs))
+    before = [op for op in mod.walk() if isinstance(op, snax.Alloc)]
+    info = [(list(op.shapes), op.size, op.result) for op in before]
+    users = [next(iter(op.result.uses)).operation for op in before]   # the cast that consumes the descriptor
+    SnaxAllocatePass(mode=mode).apply(c, mod)
+    mod.verify()
+    ds = {d["result"]: d for d in extract_descriptors(mod)}
+    out = []
+    for (shapes, size, _), user in zip(info, users):
+        d = ds.get(user.operands[0])
+        if d is None:
+            out.append(None)
+        else:
+            out.append({"descr": d, "shape_vals": shapes, "size_val": size})
+    return out
+
+
+def check_dynamic(allocs, res, mode):
+    """L2: the descriptor of a run-time allocation: base pointer = field 0 and aligned pointer = field 1 of the
+    struct returned by snax_alloc_l1(size of this alloc, alignment of this alloc); offset 0; sizes = shape operands."""
+    fails = []
+    for k, (a, r) in enumerate(zip(allocs, res)):
+        if a["mem"] != "L1":
+            if r is not None:
+                fails.append(("dynamic_rewrote_non_l1", {"alloc": k}, None))
+            continue
+        if r is None:
+            fails.append(("dynamic_not_rewritten", {"alloc": k}, None))
+            continue
+        d = r["descr"]
+        call = d["call"]
+        if d["ptr"] != ("field", 0) or d["aligned"] != ("field", 1):
+            fails.append(("descriptor_pointers", {"alloc": k, "ptr": d["ptr"], "aligned": d["aligned"]}, None))
+        if d["offset"] != 0:
+            fails.append(("descriptor_offset", {"alloc": k, "offset": d["offset"]}, None))
+        if d["sizes"] != r["shape_vals"]:
+            fails.append(("descriptor_sizes", {"alloc": k}, None))
+        if call is None or call.arguments[0] is not r["size_val"] or call.arguments[1].owner.value.value.data != a["al"]:
+            fails.append(("alloc_call_arguments", {"alloc": k}, None))
+    return fails
+
+
 # ------------------------------------------------------------------ L1
+def _shards(header, ctype, test, cases, meta, label, per):
+    """-> list of (text, 1, decode) jobs, `per` cases per Coq file"""
+    jobs = []
+    for a in range(0, len(cases), per):
+        text = [header, f"Definition cases : list ({ctype}) := {coqlist(cases[a:a + per])}.",
+                f"Eval vm_compute in failing ({test}) cases."]
+
+        def dec(lists, a=a):
+            return [{"name": label, "case": meta[a + i], "coq_case": cases[a + i][:600]} for i in lists[0]]
+        jobs.append(("\n".join(text) + "\n", 1, dec))
+    return jobs
+
+
 def correspondence(ctx):
     rng = ctx.rng
     dis = []
@@ -609,16 +774,16 @@ def correspondence(ctx):
         shared = len(reqs) - len({m for m, _, _ in reqs})
         ctx.count({"mode": "static", "mems": mems, "reqs": reqs, "result": [kind, addrs]}, shared >= 1,
                   f"st{mems}{reqs}", "static:" + kind)
-    text = ["From Snax Require Import Base.Prelude Model.Tsl Model.C11Alloc."]
-    text.append(f"Definition cases_static : list (list (Z*Z) * list mreq * ares (list Z)) := {coqlist(cases)}.")
-    text.append("Eval vm_compute in failing (fun c => match c with (m, r, res) => ares_eqb (static_multi m r) res end) cases_static.")
-    ok, out = vlib.coq_eval("c11", "\n".join(text) + "\n", timeout=600)
-    lists = vlib.parse_all_eval_lists(out)
-    if not ok or len(lists) != 1:
-        return [{"name": "cases-file", "detail": out[-2000:]}]
-    for idx in lists[0]:
-        dis.append({"name": "L1:static", "case": meta[idx], "coq_case": cases[idx][:600]})
-    dis += _corr_sizes(ctx) + _corr_life(ctx)
+    hdr = "From Snax Require Import Base.Prelude Model.Tsl Model.C11Alloc."
+    jobs = _shards(hdr, "list (Z*Z) * list mreq * ares (list Z)",
+                   "fun c => match c with (m, r, res) => ares_eqb (static_multi m r) res end", cases, meta, "L1:static", 400)
+    jobs += _corr_sizes(ctx) + _corr_life(ctx)
+    outs = vlib.coq_eval_many("c11_", [j[0] for j in jobs], timeout=900, par=6)
+    for (txt, nlists, dec), (ok, out) in zip(jobs, outs):
+        lists = vlib.parse_all_eval_lists(out)
+        if not ok or len(lists) != nlists:
+            return [{"name": "cases-file", "detail": out[-2000:]}]
+        dis += dec(lists)
     return dis
 
 
@@ -630,31 +795,33 @@ def _corr_sizes(ctx):
         c = gen_size_case(rng)
         res = run_size_case(c)
         if res is None:
-            return [{"name": "L1:memref-to-snax", "detail": "alloc not rewritten", "case": c}]
+            raise RuntimeError(f"memref-to-snax did not rewrite {c}")
         kind, lit = coq_size_case(c, res)
         (none_cases if kind == "none" else tsl_cases).append(lit)
         (meta_n if kind == "none" else meta_t).append({"case": c, "impl": res})
         dyn = any(x is None for x in c["sshape"])
         ctx.count({"pass": "memref-to-snax", "case": c, "size": res["size"]}, c["ts"] is not None,
                   f"sz{c}", "size:" + ("none" if c["ts"] is None else ("dynamic" if dyn else "static")))
-    text = ["From Snax Require Import Base.Prelude Model.Tsl Model.C11Alloc.",
-            f"Definition cases_none : list (Z * list Z * Z) := {coqlist(none_cases)}.",
-            "Eval vm_compute in failing (fun c => match c with (el, dims, r) => size_none el dims =? r end) cases_none.",
-            f"Definition cases_tsl : list (Z * layout * list Z * Z) := {coqlist(tsl_cases)}.",
-            "Eval vm_compute in failing (fun c => match c with (el, l, dims, r) => optZ_eqb (size_tsl el l dims) (Some r) end) cases_tsl."]
-    ok, out = vlib.coq_eval("c11s", "\n".join(text) + "\n", timeout=600)
-    lists = vlib.parse_all_eval_lists(out)
-    if not ok or len(lists) != 2:
-        return [{"name": "cases-file", "detail": out[-2000:]}]
-    dis = [{"name": "L1:memref-to-snax(no layout)", "case": meta_n[i], "coq_case": none_cases[i][:600]} for i in lists[0]]
-    dis += [{"name": "L1:memref-to-snax(tsl)", "case": meta_t[i], "coq_case": tsl_cases[i][:600]} for i in lists[1]]
-    return dis
+    hdr = "From Snax Require Import Base.Prelude Model.Tsl Model.C11Alloc."
+    return (_shards(hdr, "Z * list Z * Z", "fun c => match c with (el, dims, r) => size_none el dims =? r end",
+                    none_cases, meta_n, "L1:memref-to-snax(no layout)", 400)
+            + _shards(hdr, "Z * layout * list Z * Z",
+                      "fun c => match c with (el, l, dims, r) => optZ_eqb (size_tsl el l dims) (Some r) end",
+                      tsl_cases, meta_t, "L1:memref-to-snax(tsl)", 250))
 
 
 def _corr_life(ctx):
     rng = ctx.rng
-    n = ctx.n(60, 2000)
-    cases, meta = [], []
+    n = ctx.n(45, 2000)
+    cases, meta, dcases, dmeta = [], [], [], []
+    for _ in range(ctx.n(40, 1000)):      # dynamic mode / auto with a dynamically sized alloc
+        allocs_d = gen_dynamic(rng)
+        mode_d = "dynamic" if rng.random() < 0.5 or all(a["size"] is not None for a in allocs_d) else "auto"
+        for a_, r_ in zip(allocs_d, run_dynamic(allocs_d, mode_d)):
+            if r_ is not None:
+                dcases.append(f"({coq_descr(r_['descr'], r_['shape_vals'])}, descr_dynamic {zlit(a_['al'])} {a_['rank']}%nat)")
+                dmeta.append({"allocs": allocs_d, "mode": mode_d})
+        ctx.count({"pass": f"snax-allocate{{mode={mode_d}}}", "allocs": allocs_d}, True, f"dyn{allocs_d}{mode_d}", f"descr:{mode_d}")
     for _ in range(n):
         text, nm = gen_life_program(rng)
         mode = rng.choice(["minimalloc", "minimalloc", "auto"])
@@ -665,24 +832,34 @@ def _corr_life(ctx):
             bufs.append(coqlist(f"(mkBuf {st}%nat {en}%nat {zlit(sz)} {zlit(al)})" for st, en, sz, al in bl))
         cases.append(f"({coq_prog(run['prog'])}, {coqlist(bufs)})")
         meta.append({"text": text, "mode": mode, "problems": run["problems"]})
+        allocs_ = [o for o in run["prog"] if o["kind"] == "KAlloc"]
+        pos_ = {}
+        if len(run["descrs"]) == len(allocs_):
+            for a_, d_, sv_ in zip(allocs_, run["descrs"], run["shape_vals"]):
+                kth = pos_.get(a_["mem"], 0)
+                pos_[a_["mem"]] = kth + 1
+                off_ = run["offsets"][a_["mem"]][kth]
+                dcases.append(f"({coq_descr(d_, sv_)}, descr_const (pointer_of {zlit(run['mems'][a_['mem']][0])} {zlit(off_)}) {len(sv_)}%nat)")
+                dmeta.append({"text": text, "mode": mode, "alloc_memory": a_["mem"], "solver_offset": off_,
+                              "impl_descriptor": [d_["ptr"], d_["aligned"], d_["offset"]]})
+        else:
+            raise RuntimeError("descriptor count != alloc count")
         nviews = sum(1 for o in run["prog"] if o["alias"] and o["kind"] != "KCast")
         ctx.count({"pass": f"snax-allocate{{mode={mode}}}", "buffers": run["problems"]}, nviews >= 1, text, f"life:{mode}")
-    shards, per = [], 20
+    jobs, per = [], 15
     for a in range(0, len(cases), per):
         text = ["From Snax Require Import Base.Prelude Model.C11Life.",
                 f"Definition cases : list (list aop * list (list buffer)) := {coqlist(cases[a:a + per])}.",
                 "Definition ok (c : list aop * list (list buffer)) : bool := wf_prog (fst c) && "
                 "list_eqb (list_eqb buffer_eqb) (map (buffers_in (fst c)) (seq 0 (length (snd c)))) (snd c).",
                 "Eval vm_compute in failing ok cases."]
-        shards.append("\n".join(text) + "\n")
-    dis = []
-    for si, (ok, out) in enumerate(vlib.coq_eval_many("c11l_", shards, timeout=600)):
-        lists = vlib.parse_all_eval_lists(out)
-        if not ok or len(lists) != 1:
-            return [{"name": "cases-file", "detail": out[-2000:]}]
-        for idx in lists[0]:
-            dis.append({"name": "L1:minimalloc-lifetimes", "case": meta[si * per + idx], "coq_case": cases[si * per + idx][:600]})
-    return dis
+
+        def dec(lists, a=a):
+            return [{"name": "L1:minimalloc-lifetimes", "case": meta[a + idx], "coq_case": cases[a + idx][:600]} for idx in lists[0]]
+        jobs.append(("\n".join(text) + "\n", 1, dec))
+    jobs += _shards("From Snax Require Import Base.Prelude Model.Tsl Model.C11Alloc.", "descr * descr",
+                    "fun c => descr_eqb (fst c) (snd c)", dcases, dmeta, "L1:memref-descriptor", 400)
+    return jobs
 
 
 # ------------------------------------------------------------------ L2
@@ -711,6 +888,12 @@ def search(ctx, deep=False):
             fails.append({"what": what, "mode": "life", "input": {"text": text, "nm": nm, "pass_mode": mode},
                           "impl": {"problems": run["problems"], "addrs": run["addrs"]}, "detail": detail, "klass": klass})
         ctx.count({"L2": "life"}, True, "l2lf" + text, "L2:life")
+    for _ in range(ctx.n(80, 1000) * (3 if deep else 1)):
+        allocs_d = gen_dynamic(rng)
+        mode_d = "dynamic" if rng.random() < 0.5 or all(a["size"] is not None for a in allocs_d) else "auto"
+        for what, detail, klass in check_dynamic(allocs_d, run_dynamic(allocs_d, mode_d), mode_d):
+            fails.append({"what": what, "mode": "dynamic", "input": {"allocs": allocs_d, "pass_mode": mode_d}, "detail": detail, "klass": klass})
+        ctx.count({"L2": "dynamic", "allocs": allocs_d}, True, f"l2dy{allocs_d}{mode_d}", "L2:dynamic")
     return _dedup(fails)
 
 
@@ -763,6 +946,13 @@ def replay(ctx, obj):
         run = run_minimalloc(i["text"], i["nm"], i["pass_mode"])
         print("buffers handed to the solver:", run["problems"], "\naddresses:", run["addrs"])
         fs = check_life(run)
+        for r in fs:
+            print("FAIL", r)
+        return 1 if fs else 0
+    if f.get("mode") == "dynamic":
+        i = f["input"]
+        print(dynamic_text(i["allocs"]))
+        fs = check_dynamic(i["allocs"], run_dynamic(i["allocs"], i["pass_mode"]), i["pass_mode"])
         for r in fs:
             print("FAIL", r)
         return 1 if fs else 0
